@@ -52,6 +52,8 @@ CheckObs(S, id, o) ==
           THEN /\ Say(o.r.s = "ok", id, "C12", "load_ext.status:" \o o.r.s, why)
                /\ (o.r.s = "ok" => Say(o.r.v.canon = Canon(S), id, "C12", "load_ext.content:" \o a.doc, why))
           ELSE Say(o.r.s = a.expect, id, "C12", "load_ext.rejects:" \o a.doc \o ":" \o o.r.s, why)
+     [] o.q = "dup_route" ->     \* C03: a document whose decoded tree would hold duplicate siblings must be refused
+          Say(o.r.s = "UniqueConstraintError", id, "C03", "dup_not_refused:" \o a.route \o ":" \o o.r.s, why)
      [] o.q = "dictlist" ->
           Say(o.r.s = "ok" /\ o.r.v = (IF "empty" \in DOMAIN a THEN <<>> ELSE ToDictList(S)), id, "C14",
               "dictlist:" \o a.via \o ":" \o o.r.s, why)
